@@ -61,6 +61,9 @@ var historySetups = map[string]func(r *kvh.Runner){}
 // buffers in half of the cases. Replays of such cases run with reuse on (a superset of what failed).
 var reuseBuffers = map[string]bool{"C01": true, "C02": true, "C05": true, "C06": true, "C17": true, "C20": true}
 
+// prefillProps names the history properties that start 8 % of their cases from a database holding 120..520 keys.
+var prefillProps = map[string]bool{"C01": true, "C02": true, "C06": true, "C10": true, "C14x": true, "C15": true, "C17": true, "C18": true}
+
 // replayers run a saved case of the given kind and return its failure.
 var replayers = map[string]func(c *kvh.Case, raw []byte) *kvh.Fail{
 	"history": replayHistory,
@@ -182,6 +185,22 @@ func runHistoryCase(t *rapid.T, property string, prof *kvh.GenProfile, nonTrivia
 	}
 	kvh.SetInFlight(&kvh.InFlight{Property: property, Case: func() any { return r.AsCase(property, "history", first) }})
 	defer kvh.SetInFlight(nil)
+	if prefillProps[property] && kvh.Pct(t, 8, "prefill") {
+		// a deep index: enough keys per shard to split B-tree nodes (degree 33) and to grow skip-list towers
+		n := 120 + kvh.U(t, 400, "prefillkeys")
+		var ops []kvh.Op
+		for i := 0; i < n; i++ {
+			ops = append(ops, kvh.Op{K: "bput", Key: []byte(fmt.Sprintf("p%03d", (i*7919)%1000)), VLen: 1 + i%5, VSeed: r.NextSeed()})
+		}
+		for len(ops) > 0 {
+			m := min(len(ops), 64)
+			if f := r.Step(kvh.Op{K: "batch", Ops: ops[:m]}); f != nil {
+				report(t, st, r.AsCase(property, "history", first), f)
+			}
+			ops = ops[m:]
+		}
+		st.Label("prefilled-with->=120-keys")
+	}
 	t.Repeat(map[string]func(*rapid.T){
 		"op": func(t *rapid.T) {
 			op := kvh.GenOp(t, r, pool, prof)
